@@ -2,7 +2,7 @@ SPECIFICATION Spec
 CONSTANTS
   Order <- OrderLarge
   Fillers <- FillLarge
-  AsWritten = TRUE
+  LegacySkip = FALSE
   Emit = TRUE
-INVARIANTS BackupSide EmitInv
+INVARIANTS BackupSide RestoreSound EmitInv
 CHECK_DEADLOCK FALSE
